@@ -173,4 +173,70 @@ class ClearEngine(c12.LockEngine):
     return {'obs': obs, 'fails': fails[:2], 'nontrivial': nontrivial, 'tags': tags}
 
 
-ENGINES = [ClearEngine()]
+class ClearDuringConstructionEngine(Engine):
+  """clear_config() called while ANOTHER thread is inside a singleton constructor: when it returns, every singleton
+  cached before is gone (the next use constructs anew), whatever the other thread is doing.  Real threads, fixed
+  hand-over points (events); implementation only."""
+  name = 'clear-during-construction'
+  model = False
+
+  def budget(self, tier):
+    return 0
+
+  def corpus(self):
+    return [{'cached': n, 'constants': cc, 'rebind': rb} for n in (1, 3) for cc in (False, True) for rb in (False, True)]
+
+  def gen(self, rng, tier):
+    return self.corpus()[0]
+
+  def impl(self, case):
+    import threading
+    gin = C.fresh_gin()
+    built = []
+    entered, release = threading.Event(), threading.Event()
+
+    def make(tag):
+      def ctor():
+        built.append(tag)
+        return object()
+      return ctor
+
+    def slow():
+      built.append('slow')
+      entered.set()
+      release.wait(10)
+      return object()
+    fails = []
+    first = [gin.config.singleton_value('s%d' % i, make('s%d' % i)) for i in range(case['cached'])]
+    if case['rebind']:
+      @gin.configurable
+      def f(a=None):
+        return a
+      gin.bind_parameter('f.a', 1)
+    t = threading.Thread(target=lambda: gin.config.singleton_value('slow', slow), daemon=True)
+    t.start()
+    ok = entered.wait(10)
+    try:
+      gin.clear_config(clear_constants=case['constants'])
+      exc = None
+    except Exception as e:  # pylint: disable=broad-except
+      exc = type(e).__name__
+    finally:
+      release.set()
+      t.join(10)
+    if not ok:
+      fails.append(('scenario-not-reached', ''))
+    if exc is not None:
+      fails.append(('clear-config-raised', exc))
+    before = list(built)
+    second = [gin.config.singleton_value('s%d' % i, make('s%d' % i)) for i in range(case['cached'])]
+    survived = [i for i in range(case['cached']) if second[i] is first[i]]
+    if survived:
+      fails.append(('singleton-survived-clear', 'singletons %r cached before clear_config() were still served after it '
+                    '(constructions %r, then %r)' % (survived, before, built[len(before):])))
+    if case['rebind'] and gin.config_str().strip():
+      fails.append(('store-not-empty-after-clear', gin.config_str()))
+    return {'obs': T('Done'), 'fails': fails, 'nontrivial': True, 'tags': ['cached%d' % case['cached']]}
+
+
+ENGINES = [ClearEngine(), ClearDuringConstructionEngine()]
